@@ -17,6 +17,7 @@ def self_field_of(fl, op):
 def run(db, chk):
     attribute_level_rule(db, chk)
     failed_push_not_popped_rule(db, chk)
+    transition_flag_rule(db, chk)
     f = db.one(r"^gix_fs::stack::<impl gix_fs::Stack>::make_relative_path_current$")
     fl = Flow(f)
     pushes = f.calls_to(r"stack::Delegate::push$")
@@ -136,3 +137,34 @@ def failed_push_not_popped_rule(db, chk):
         chk.ob("failed-push-is-not-popped", "push_directory %s.push_directory@%d" % (kind, c.line), not wrong,
                "on the error edge of this push a pop_directory follows (line %s) that removes a level the failed push never added" % [p.line for p in wrong],
                c.where(), key="failed-push-popped|%s" % kind)
+
+
+def transition_flag_rule(db, chk):
+    """when the previous path ended in a leaf and the next path goes THROUGH it, make_relative_path_current announces that component as a
+    directory (push_directory under the `!current_is_directory` test, outside the component loop).  From then on the delegate waits for the
+    matching pop_directory(), which is sent only if `current_is_directory` is set: on the success edge of that call every path to a return
+    passes a store to the flag - also the early error return for `..`/absolute components."""
+    from gx.flow import control_switches
+    f = db.one(r"^gix_fs::stack::<impl gix_fs::Stack>::make_relative_path_current$")
+    fl = Flow(f)
+    in_loop = set().union(*[l["body"] for l in f.loops()]) if f.loops() else set()
+    trans = []
+    for c in f.calls_to(r"stack::Delegate::push_directory$"):
+        if c.block in in_loop:
+            continue
+        deps = set()
+        for b in control_switches(f, c.block):
+            deps |= {r[2][0] for r in fl.roots(f.term(b)[1], stop_named=False) if r[0] == "arg" and r[1] == 1 and r[2]}
+        if ".current_is_directory" in deps:
+            trans.append(c)
+    chk.floor("make_relative_path_current: leaf-to-directory transition", len(trans), 1)
+    stores = {bi for bi, si, pl, rv, ln, mc in f.assigns() if pl and pl[-1] == ".current_is_directory" and pl[0] == 1}
+    rets = {b for b in f.reachable_blocks() if f.term(b)[0] == "ret"}
+    for c in trans:
+        e = fl.result_edges(c)
+        leak = set()
+        for _, t in e["good"]:
+            leak |= f.reach_from(t, avoid=stores) & rets
+        chk.ob("announced-directory-is-remembered", "make_relative_path_current push_directory@%d" % c.line, bool(e["good"]) and not leak,
+               "after the component was announced as a directory a return is reachable without `current_is_directory` being set: the delegate never receives the matching pop_directory() (`a/b`, then `a/b/../c`: `a` stays open for ever)",
+               c.where(), key="transition-flag|make_relative_path_current")
